@@ -134,7 +134,12 @@ pub fn stable_label(label: &str, root: &Path) -> String {
         };
         parts.push(seg);
     }
-    parts.join("/")
+    let res = parts.join("/");
+    // the files of the rsync staging directory are one class
+    if let Some(idx) = res.find("/repo/rsync/tmp-N/") {
+        return format!("{}/repo/rsync/tmp-N/FILE", &res[..idx])
+    }
+    res
 }
 
 /// Translates a fault label into an abstract mutation of the key set.
@@ -1083,13 +1088,25 @@ fn run_twin(
             }
         }
         instances[i].eff = eff;
-        instances[i].later = scen.get("timing").is_some() || (i + 1..n).any(|j| {
+        instances[i].later = (i + 1..n).any(|j| {
             instances[j].muts.iter().any(|m| m["t"] == "WAL")
             && instances[j].cls != "update_rrdp"
         });
     }
     settle(&mut w)?;
     let fin = json!({"view": final_view(&mut w), "obs": observe(&mut w)});
+    // the yardstick itself must be sound
+    let fo = &fin["obs"];
+    if fo["rrdpeq"] != json!(true) || fo["rsynceq"] != json!(true)
+        || !fo["objsbad"].as_array().map(|a| a.is_empty()).unwrap_or(false)
+        || !fo["load"].as_array().map(|a| a.is_empty()).unwrap_or(false)
+    {
+        return Err(format!(
+            "twin: the fault-free run does not end in a consistent state: \
+             rrdpeq={} rsynceq={} objsbad={} load={}",
+            fo["rrdpeq"], fo["rsynceq"], fo["objsbad"], fo["load"]
+        ))
+    }
     Ok((instances, fin, obs))
 }
 
@@ -1189,6 +1206,9 @@ fn run_case(
         "ev": "reset", "case": id, "kind": inst.kind, "op": inst.op,
         "cls": inst.cls, "task": is_step(&inst.op), "eff": inst.eff,
         "later": inst.later,
+        // with everything due, the maintenance tasks that start-up queues
+        // publish again
+        "later_restart": inst.later || scen.get("timing").is_some(),
         "seq": inst.muts, "n": inst.muts.len(), "pre": pre,
         "twinres": inst.res,
     }));
